@@ -27,6 +27,7 @@ from harness.universe import (Universe, export_plan, table_rows, columns_of, col
                               kf_tfs_partial_requirement, kf_framework_roundtrip, kf_tfs_missing)
 from harness.orch import GateListener, run_observed, install
 from harness.c08 import api_variant
+from harness import routing
 
 LEVEL = "proof"
 logging.disable(logging.CRITICAL)
@@ -40,19 +41,6 @@ Definition obs_ok (e : env) (obs : list (nat * column)) : bool :=
 Definition chk_values (c : (nat * env * list fdef) * list (nat * column)) : bool :=
   match c with ((n, src, defs), obs) =>
     let e := ref_eval n src defs in wf_request src defs && solution n src defs e && obs_ok e obs end.
-(* routing: the objects each begun step wrote to / read from, predicted by Model/Routing.v from the plan and the begin order,
-   equal the observed footprints (objects named by the step that created them); no lookup fails on a step that began;
-   and the steps whose deciding lookup was ambiguous are reported back for classification *)
-Definition opt_nat_eqb (a b : option nat) : bool :=
-  match a, b with Some x, Some y => Nat.eqb x y | None, None => true | _, _ => false end.
-Definition foot_eqb (a b : foot) : bool :=
-  Nat.eqb (fst (fst a)) (fst (fst b)) && Nat.eqb (snd (fst a)) (snd (fst b)) && opt_nat_eqb (snd a) (snd b).
-Fixpoint foots_eqb (a b : list foot) : bool :=
-  match a, b with [] , [] => true | x :: r, y :: t => foot_eqb x y && foots_eqb r t | _, _ => false end.
-Definition chk_route (c : list rstep * list foot) : bool :=
-  match c with (steps, obs) => let (tr, ok) := route_all [] steps in ok && foots_eqb (map foot_of tr) obs end.
-Definition chk_noamb (c : list rstep * list foot) : bool :=
-  match ambiguous_steps [] (fst c) with [] => true | _ => false end.
 (* replay of the observed run through the data-plane model: ok? + returned columns *)
 Definition chk_exec (c : (nat * env * list fdef * list action) * (bool * list (nat * nat * column))) : bool :=
   match c with ((n, src, defs, acts), (ok, obs)) =>
@@ -228,44 +216,17 @@ def one(spec: Dict[str, Any]) -> Dict[str, Any]:
             acts.append(f"ACopy {cq_nat(src_obj[0] if src_obj else w)} {cq_nat(w)}")
     rec["acts"] = acts
     rec["ids"] = ids
-    # routing model input: the begun steps in begin order (Model/Routing.rstep) and the observed footprints with objects
-    # named by the first step that wrote to them
-    creator: Dict[int, int] = {}
-    rsteps, feet = [], []
-    routable = True
-    for sid in o["begin_order"]:
-        s = steps[sid]
-        foot = o["foot"].get(sid)
-        if foot is None or s["kind"] not in ("FG", "TFS"):
-            routable = False
-            break
-        w, reads = foot
-        creator.setdefault(w, sid)
-        rd = [x for x in reads if x != w]
-        optn = lambda v: f"(Some {cq_nat(v)})" if v is not None else "None"  # noqa: E731
-        if s["kind"] == "FG":
-            sopt = None
-            for o_ in s.get("opts") or []:
-                for k_, v_ in o_:
-                    if k_ == root.get("opt_key"):
-                        sopt = v_
-            if s["group"] == root["name"]:
-                sub = {k: v for k, v in ids.items() if k[1] == sopt}
-                rroot, rdefs = f"(Some {cq_src(sub, root)})", "[]"
-            else:
-                rroot, rdefs = "None", cq_defs(ids, spec, only=[(n_, sopt) for n_ in dict.fromkeys(s["names"])])
-            rsteps.append(f"{{| rs_sid := {cq_nat(sid)}; rs_kind := RFG; rs_cls := {CLS.get(s['cfw'], 9)}; rs_from := 0; "
-                          f"rs_any := {cq_nat(s['any_uuid'] or 0)}; rs_cir := {cq_list(cq_nat(u) for u in s['children_if_root'])}; "
-                          f"rs_tfs := {cq_list(cq_nat(u) for u in s['tfs_order'])}; rs_req := {cq_list(cq_nat(u) for u in s['req_order'])}; "
-                          f"rs_right := None; rs_link := None; rs_root := {rroot}; rs_defs := {rdefs} |}}")
-            feet.append(f"({cq_nat(sid)}, {cq_nat(creator[w])}, None)")
-        else:
-            rsteps.append(f"{{| rs_sid := {cq_nat(sid)}; rs_kind := RTFS; rs_cls := {CLS.get(s['to_cfw'], 9)}; rs_from := {CLS.get(s['from_cfw'], 9)}; "
-                          f"rs_any := 0; rs_cir := []; rs_tfs := []; rs_req := {cq_list(cq_nat(u) for u in s['req_order'])}; "
-                          f"rs_right := {optn(s.get('right_uuid'))}; rs_link := {optn(s.get('link_id'))}; rs_root := None; rs_defs := [] |}}")
-            src_c = creator.get(rd[0]) if rd else creator[w]
-            feet.append(f"({cq_nat(sid)}, {cq_nat(creator[w])}, {optn(src_c)})")
-    rec["route"] = (rsteps, feet) if routable else None
+    # routing model input: the begun steps in begin order (Model/Routing.rstep) and the observed footprints
+    def payload(s: Dict[str, Any]) -> Tuple[str, str]:
+        sopt = None
+        for o_ in s.get("opts") or []:
+            for k_, v_ in o_:
+                if k_ == root.get("opt_key"):
+                    sopt = v_
+        if s["group"] == root["name"]:
+            return f"(Some {cq_src({k: v for k, v in ids.items() if k[1] == sopt}, root)})", "[]"
+        return "None", cq_defs(ids, spec, only=[(n_, sopt) for n_ in dict.fromkeys(s["names"])])
+    rec["route"] = routing.terms(plan, o["begin_order"], o["foot"], payload)
     return rec
 
 
@@ -328,12 +289,9 @@ def run(rep: vlib.Reporter, tier: str, seed: int) -> None:
                                    case_type="(nat * env * list fdef * list action) * (bool * list (nat * nat * column))", shard=100)
     bad_e_set = set(ex_idx[k] for k in bad_e)
     rt_idx = [i for i, r in enumerate(recs) if r.get("route")]
-    rt_terms = [f"({cq_list(recs[i]['route'][0])}, {cq_list(recs[i]['route'][1])})" for i in rt_idx]
-    bad_r, info_r = vlib.run_cases("C02", "route", REQ, "chk_route", rt_terms, extra_defs=EXTRA,
-                                   case_type="list rstep * list foot", shard=100) if rt_terms else ([], {})
-    amb_r, _ = vlib.run_cases("C02", "amb", REQ, "chk_noamb", rt_terms, extra_defs=EXTRA,
-                              case_type="list rstep * list foot", shard=100) if rt_terms else ([], {})
-    amb_set = set(rt_idx[k] for k in amb_r)
+    bad_r, amb_k, info_r = routing.check("C02", "route", [recs[i]["route"] for i in rt_idx], requires=REQ)
+    rt_terms = rt_idx
+    amb_set = set(rt_idx[k] for k in amb_k)
     py_rt = set(i for i in rt_idx if recs[i].get("kf_py_roundtrip"))
     # the round-trip domain is decided in Coq on the run itself (a deciding registry lookup with two matching objects);
     # the static Python predicate is only the fallback for runs the routing model does not cover
